@@ -213,6 +213,14 @@ def replay_chunk(args):
             out["machinery"].append({"what": "pqspec could not build the file: %r" % (e,), "sig": sig})
             continue
         out["evals"] += 1
+        if os.environ.get("VERIF_SAN_MARK"):
+            import sys
+            sys.stderr.write("@@case %s\n" % json.dumps({"kind": case["kind"], "n": case["n"], "optional": case["optional"],
+                                                         "creator": case["creator"], "stats": case.get("stats"),
+                                                         "cause": sig["cause"],
+                                                         "pages": [[p["v"], p["enc"], p["index_width"], p["def_runs"], p["index_runs"]]
+                                                                   for g in case["rgs"] for p in g["pages"]][:4]}))
+            sys.stderr.flush()
         try:
             pf = fp.ParquetFile(io.BytesIO(data))
             df = pf.to_pandas()
